@@ -1,6 +1,136 @@
-//! Job kinds of this property (see lib/prop_*.py). Returns None for kinds it does not know.
-use serde_json::Value;
+//! Job kinds of C17 (see lib/prop_c17.py). Returns None for kinds it does not know.
+//!
+//! `c17_build`: {"modes": [...], "inputs": [str, ...], "high": u64 (default 65536),
+//!               "minlog_max_states": u64 (default 0)}
+//!   builds the scanner (uncached), reports per mode the number of states of the compiled
+//!   automaton, the accepting states of mode 0 whose index is >= `high` as [state, token type],
+//!   the sizes of all minimizer runs, the recorded minimizer pairs whose input has at most
+//!   `minlog_max_states` states, and for every input the complete token stream of
+//!   `find_iter(input)` as [[token type, start, end], ...] (or {"panic": message}).
+//!   The oracle is NOT computed here: lib/prop_c17.py derives the expected token streams from
+//!   the pattern list itself and may pass them as "expected" (used only to decide for which
+//!   inputs the blank-separated words are tokenized individually as well, see below).
+use std::panic::{catch_unwind, AssertUnwindSafe};
+use std::time::Instant;
 
-pub fn run(_kind: &str, _job: &Value) -> Option<Value> {
-    None
+use scnr::verif;
+use serde_json::{json, Map, Value};
+
+fn tokens(scanner: &scnr::Scanner, input: &str) -> Value {
+    let r = catch_unwind(AssertUnwindSafe(|| {
+        let mut out: Vec<[u64; 3]> = Vec::new();
+        // a stream can never hold more tokens than the input has bytes; the bound turns a
+        // non-terminating iterator into a reported defect instead of a hang
+        let bound = input.len() + 2;
+        for m in scanner.find_iter(input) {
+            out.push([m.token_type() as u64, m.start() as u64, m.end() as u64]);
+            if out.len() > bound {
+                panic!("harness: more tokens than input bytes");
+            }
+        }
+        out
+    }));
+    match r {
+        Ok(v) => json!(v),
+        Err(p) => json!({"panic": crate::panic_message(p)}),
+    }
+}
+
+fn job_build(job: &Value) -> Value {
+    let mut res = Map::new();
+    let modes = match catch_unwind(|| crate::modes_from_json(&job["modes"])) {
+        Ok(m) => m,
+        Err(p) => {
+            res.insert("build".into(), json!("panic"));
+            res.insert("error".into(), json!(crate::panic_message(p)));
+            return Value::Object(res);
+        }
+    };
+    let high = job.get("high").and_then(|h| h.as_u64()).unwrap_or(65_536) as usize;
+    let minlog_max = job.get("minlog_max_states").and_then(|h| h.as_u64()).unwrap_or(0) as usize;
+    let _ = verif::take_minimizer_log();
+    let t0 = Instant::now();
+    let (scanner, class, msg) = crate::build(&modes, false);
+    let build_ms = t0.elapsed().as_millis() as u64;
+    let minlog = verif::take_minimizer_log();
+    res.insert("build".into(), json!(class));
+    res.insert("build_ms".into(), json!(build_ms));
+    if !msg.is_empty() {
+        res.insert("error".into(), json!(msg));
+    }
+    res.insert(
+        "minimizer_sizes".into(),
+        json!(minlog.iter().map(|(a, b)| [a.states.len(), b.states.len()]).collect::<Vec<_>>()),
+    );
+    if minlog_max > 0 {
+        res.insert(
+            "minlog".into(),
+            Value::Array(
+                minlog
+                    .iter()
+                    .filter(|(a, _)| a.states.len() <= minlog_max && a.lookaheads.is_empty())
+                    .map(|(a, b)| json!([crate::dfa_to_json(a), crate::dfa_to_json(b)]))
+                    .collect(),
+            ),
+        );
+    }
+    let Some(scanner) = scanner else {
+        return Value::Object(res);
+    };
+    let dump = verif::dump(&scanner);
+    res.insert("nstates".into(), json!(dump.modes.iter().map(|m| m.dfa.states.len()).collect::<Vec<_>>()));
+    res.insert(
+        "nedges".into(),
+        json!(dump.modes.iter().map(|m| m.dfa.states.iter().map(|s| s.len()).sum::<usize>()).collect::<Vec<_>>()),
+    );
+    if let Some(m0) = dump.modes.first() {
+        let acc: Vec<(usize, u32)> = m0
+            .dfa
+            .end_states
+            .iter()
+            .enumerate()
+            .filter(|(_, e)| e.0)
+            .map(|(i, e)| (i, e.1))
+            .collect();
+        res.insert("naccepting".into(), json!(acc.len()));
+        res.insert(
+            "high_accepting".into(),
+            json!(acc.iter().filter(|(i, _)| *i >= high).map(|(i, t)| [*i as u64, *t as u64]).collect::<Vec<_>>()),
+        );
+        // largest target index used by an edge (shows whether high state ids are really in use)
+        let max_target = m0.dfa.states.iter().flat_map(|s| s.iter().map(|e| e.1)).max().unwrap_or(0);
+        res.insert("max_target".into(), json!(max_target));
+    }
+    let t1 = Instant::now();
+    let mut streams = Vec::new();
+    // "expected": per input the stream the caller expects, or null. For at most three inputs
+    // whose stream differs, every blank-separated word is tokenized on its own as well, so that
+    // the caller can name a single failing word.
+    let expected = job.get("expected").and_then(|e| e.as_array());
+    let mut split = Map::new();
+    if let Some(inputs) = job.get("inputs").and_then(|i| i.as_array()) {
+        for (i, inp) in inputs.iter().enumerate() {
+            let inp = inp.as_str().unwrap_or("");
+            let got = tokens(&scanner, inp);
+            if let Some(exp) = expected.and_then(|e| e.get(i)) {
+                if !exp.is_null() && *exp != got && split.len() < 3 && inp.contains(' ') {
+                    let words: Vec<Value> =
+                        inp.split(' ').filter(|w| !w.is_empty()).map(|w| json!([w, tokens(&scanner, w)])).collect();
+                    split.insert(i.to_string(), Value::Array(words));
+                }
+            }
+            streams.push(got);
+        }
+    }
+    res.insert("streams".into(), Value::Array(streams));
+    res.insert("split".into(), Value::Object(split));
+    res.insert("scan_ms".into(), json!(t1.elapsed().as_millis() as u64));
+    Value::Object(res)
+}
+
+pub fn run(kind: &str, job: &Value) -> Option<Value> {
+    match kind {
+        "c17_build" => Some(job_build(job)),
+        _ => None,
+    }
 }
